@@ -187,7 +187,7 @@ def multiset(seqs):
     return out
 
 
-def gen_cases(ctx, budget_s, composite=True, max_trials=6, gen_fn=None, corpus=True):
+def gen_cases(ctx, budget_s, composite=True, max_trials=6, gen_fn=None, corpus=True, prefer=None):
     g = D.Gen(ctx.rng, max_trials=max_trials)
     t_end = ctx.elapsed() + budget_s
     n = 0
@@ -197,6 +197,9 @@ def gen_cases(ctx, budget_s, composite=True, max_trials=6, gen_fn=None, corpus=T
         # rotate with the seed so that a budget-limited run does not always see the same prefix
         k = (ctx.seed * 37) % max(len(pending), 1)
         pending = pending[k:] + pending[:k]
+        if prefer is not None:
+            # the corpus designs the property is about come first (stable order within each part)
+            pending = [x for x in pending if prefer(x)] + [x for x in pending if not prefer(x)]
     t_corpus = ctx.elapsed() + budget_s * 0.6
     while ctx.elapsed() < t_end:
         if pending and ctx.elapsed() < t_corpus:
@@ -214,6 +217,20 @@ def gen_cases(ctx, budget_s, composite=True, max_trials=6, gen_fn=None, corpus=T
         for r in case.regs:
             ctx.count("region." + r)
         yield case
+
+
+def has_weights(desc):
+    return any(l["w"] != 1 for f in desc["factors"] for l in f["levels"])
+
+
+def block_kinds(b):
+    out = {b["k"]}
+    for k in ("b", "outer", "inner"):
+        if k in b:
+            out |= block_kinds(b[k])
+    for x in b.get("bs", []):
+        out |= block_kinds(x)
+    return out
 
 
 def sample_desc(case):
